@@ -150,6 +150,30 @@ type pcase struct {
 	edit   func(e eco)
 }
 
+// afterSteps: cases (by name) whose chain is continued after the round trip; the returned observation
+// goes into the summary.
+var afterSteps = map[string]func(rec *chain.Recorder) string{
+	feeCase11:  buyAfter,
+	feeCaseBad: buyAfter,
+}
+
+const (
+	feeCase11  = "fee params: seller fee 1.1 (FeeParams.Validate is never reached by ValidateGenesis)"
+	feeCaseBad = "fee params: unparsable buyer fee (never validated)"
+)
+
+// buyAfter starts a block and lets user 3 buy one credit of sell order 1 (ask 2000000uatom per credit).
+func buyAfter(rec *chain.Recorder) string {
+	a := rec.App
+	if res := rec.Begin(0, t0.Add(12*time.Second)); !res.OK {
+		return "begin block failed: " + res.Err + res.PanicValue
+	}
+	res := rec.Deliver(a.MsgBuyDirect(3, chain.BuyOrder(1, "1", chain.Coin("uatom", 2000000), true, "", "", chain.Coin("uatom", 2000000))))
+	rec.Last().Note = "BuyDirect of one credit after importing the patched fee params"
+	rec.Commit()
+	return fmt.Sprintf("BuyDirect(order 1, quantity 1): verdict=%s code=%d codespace=%s log=%.160q", res.Verdict(), res.Code, res.Codespace, res.Log)
+}
+
 func rep(s string, n int) string { return strings.Repeat(s, n) }
 
 func durationPB(seconds int64) *gogotypes.Duration { return &gogotypes.Duration{Seconds: seconds} }
@@ -288,11 +312,11 @@ func patchCases() []pcase {
 			f := e.singleton(pMarket + "FeeParams")
 			f["buyer_percentage_fee"], f["seller_percentage_fee"] = "0", "1"
 		}},
-		{"fee params: seller fee 1.1 (FeeParams.Validate is never reached by ValidateGenesis)", true, func(e eco) {
+		{feeCase11, true, func(e eco) {
 			f := e.singleton(pMarket + "FeeParams")
 			f["buyer_percentage_fee"], f["seller_percentage_fee"] = "0", "1.1"
 		}},
-		{"fee params: unparsable buyer fee (never validated)", true, func(e eco) { e.singleton(pMarket + "FeeParams")["buyer_percentage_fee"] = "a lot" }},
+		{feeCaseBad, true, func(e eco) { e.singleton(pMarket + "FeeParams")["buyer_percentage_fee"] = "a lot" }},
 
 		// ---- baskets
 		{"basket: name of 2 characters", false, func(e eco) { e.first(pBasket + "Basket")["name"] = "ab" }},
@@ -372,6 +396,8 @@ type result struct {
 	Observed bool   `json:"observed_valid"`
 	Error    string `json:"ecocredit_error,omitempty"`
 	Skipped  string `json:"skipped,omitempty"`
+	// Observation: what happened when the chain carried on from this state (cases with an `after` step)
+	Observation string `json:"observation,omitempty"`
 }
 
 func must(res chain.StepResult, what string) {
@@ -512,6 +538,9 @@ func main() {
 		rt := rec.GenesisRoundTrip()
 		rec.Last().Note = fmt.Sprintf("%s | expected valid=%v", pc.name, pc.expect)
 		res.Observed, res.Error = verdict(rt)
+		if after := afterSteps[pc.name]; after != nil {
+			res.Observation = after(rec)
+		}
 		res.File = writeTrace(*out, n, rec)
 		n++
 		results = append(results, res)
@@ -571,6 +600,11 @@ func main() {
 		fatal("%v", err)
 	}
 	fmt.Printf("genesisprobe: %d cases (%v), %d traces, %d surprises\n", len(results), hist, n, len(surprises))
+	for _, r := range results {
+		if r.Observation != "" {
+			fmt.Printf("  observation: %q: %s\n", r.Name, r.Observation)
+		}
+	}
 	for _, s := range surprises {
 		fmt.Printf("  surprise: %q expected valid=%v, implementation says valid=%v %s\n", s.Name, s.Expect, s.Observed, s.Error)
 	}
